@@ -453,6 +453,9 @@ struct SharedWriter {
     /// the write call (counted over the whole history) that fails hard
     fail_at: Option<usize>,
     kind: io::ErrorKind,
+    /// the flush call (counted over the whole history) that fails
+    flush_fail_at: Option<usize>,
+    flushes: Arc<Mutex<usize>>,
 }
 impl Write for SharedWriter {
     fn write(&mut self, buf: &[u8]) -> io::Result<usize> {
@@ -466,6 +469,12 @@ impl Write for SharedWriter {
         Ok(buf.len())
     }
     fn flush(&mut self) -> io::Result<()> {
+        let mut f = self.flushes.lock().unwrap();
+        let idx = *f;
+        *f += 1;
+        if Some(idx) == self.flush_fail_at {
+            return Err(io::Error::other("scripted flush error"));
+        }
         Ok(())
     }
 }
@@ -520,7 +529,7 @@ fn history_part(rep: &mut Report) {
             let mut max_calls = 0usize;
             loop {
                 st.runs += 1;
-                let w = SharedWriter { got: Default::default(), calls: Default::default(), fail_at, kind };
+                let w = SharedWriter { got: Default::default(), calls: Default::default(), fail_at, kind, flush_fail_at: None, flushes: Default::default() };
                 let entries: Vec<ScriptEntry<'_>> = seq.iter().map(|&k| kinds[k].1.compile()).collect();
                 let mut bounds = vec![0usize];
                 let mut calls_at = vec![0usize];
@@ -578,9 +587,68 @@ fn history_part(rep: &mut Report) {
             }
         }
     });
+    // the same histories through a BUFFERING writer whose flush fails once: after every entry the
+    // stream is flushed, and once more at the end with no entry in between (an idle sink's
+    // periodic flush); then everything accepted must have reached the writer
+    let hdepth = rep.tier.pick(2u32, 3);
+    let mut htotal = 0u64;
+    for d in 1..=hdepth { htotal += n.pow(d); }
+    let flush_states = par::for_each_index(htotal, 16, St::default, |st, mut idx| {
+        let mut len = 1;
+        while idx >= n.pow(len) { idx -= n.pow(len); len += 1; }
+        let mut seq = Vec::new();
+        for _ in 0..len { seq.push((idx % n) as usize); idx /= n; }
+        // one fault per run: the k-th write call (with a BufWriter, writes happen at flush time) or
+        // the k-th flush call of the writer fails
+        let faults: Vec<(Option<usize>, Option<usize>)> = (0..=seq.len()).map(|k| (Some(k), None)).chain((0..=seq.len()).map(|k| (None, Some(k)))).chain([(None, None)]).collect();
+        for (fail_at, flush_fail_at) in faults {
+            st.runs += 1;
+            let w = SharedWriter { got: Default::default(), calls: Default::default(), fail_at, kind: io::ErrorKind::Other, flush_fail_at, flushes: Default::default() };
+            let entries: Vec<ScriptEntry<'_>> = seq.iter().map(|&k| kinds[k].1.compile()).collect();
+            let mut flush_results = Vec::new();
+            let r = std::panic::catch_unwind(std::panic::AssertUnwindSafe(|| {
+                let mut stream = pristine.clone().output_to(io::BufWriter::with_capacity(1 << 20, w.clone()));
+                for e in &entries {
+                    let _ = stream.next(e);
+                    flush_results.push(stream.flush().is_ok());
+                }
+                // idle flushes: nothing was written since the last flush call
+                flush_results.push(stream.flush().is_ok());
+                flush_results.push(stream.flush().is_ok());
+                let at_the_end = w.got.lock().unwrap().clone();
+                std::mem::forget(stream); // a BufWriter would flush once more when dropped
+                at_the_end
+            }));
+            let writer_flush_calls = *w.flushes.lock().unwrap();
+            let names: Vec<&str> = seq.iter().map(|&k| kinds[k].0).collect();
+            let replay = json!({"history": names, "through": "Emf::output_to(BufWriter), flushed after every entry and twice more at the end", "writer_write_call_that_fails": fail_at, "writer_flush_call_that_fails": flush_fail_at, "flush_results_ok": flush_results, "writer_flush_calls": writer_flush_calls});
+            st.classes.insert(format!("buffered:{}:{:?}", names.join(","), flush_fail_at.is_some()));
+            match r {
+                Err(_) => st.v.add("history:panicked", "flushing panicked", replay),
+                Ok(got) => {
+                    let mut reference = Vec::new();
+                    for &k in &seq {
+                        if kinds[k].2 {
+                            reference.extend_from_slice(&refs[k]);
+                        }
+                    }
+                    if let Err(msg) = consistent(&reference, &got, true) {
+                        st.v.add("history:accepted-bytes-stuck-behind-a-failed-flush", format!("after the final (successful) flushes the writer has not received exactly the accepted entries' records: {msg}"), replay.clone());
+                    }
+                    // a flush that failed is not the end of flushing: a later flush reported as
+                    // successful must have reached the writer's flush again
+                    if let (Some(k), Some(first_err)) = (flush_fail_at, flush_results.iter().position(|ok| !ok)) {
+                        if flush_results[first_err + 1..].iter().any(|ok| *ok) && writer_flush_calls <= k + 1 && writer_flush_calls > k {
+                            st.v.add("history:flush-reported-ok-without-flushing-after-a-failed-flush", format!("the writer's flush call {k} failed; later flushes of the stream reported Ok but the writer's flush was never called again ({writer_flush_calls} calls)"), replay);
+                        }
+                    }
+                }
+            }
+        }
+    });
     let mut runs = 0;
     let mut classes = BTreeSet::new();
-    for s in states {
+    for s in states.into_iter().chain(flush_states) {
         runs += s.runs;
         classes.extend(s.classes);
         rep.violations.merge(s.v);
